@@ -489,6 +489,41 @@ class World:
                 kinds_used.add('mutate')
                 if not frame(('mutate-' + kind, ilab), ilab):
                     return
+        # the documented limit mixin (a plain class declaring <param>_max = Limit()) used by two module classes, one of which
+        # already has a plain Parameter of that name: a Limit meets a Parameter from a class outside its owner's chain
+        if rng.random() < 0.3:
+            C = self.C
+            self.uid += 1
+            LimMixin = type(f'LimMixin_{self.uid}', (), {'lv_max': C.Limit(), '__module__': __name__})
+            NumBase = type(f'NumBase_{self.uid}', (C.Writable,), {'lv': C.Parameter('limited value', self.D.FloatRange(0, 1000), readonly=False, default=1.0),
+                                                                   'write_target': lambda self, v: v, 'read_value': lambda self: 0, '__module__': __name__})
+            try:
+                classes['LimA'] = type(f'LimA_{self.uid}', (LimMixin, NumBase), {'__module__': __name__})
+                log.append(['define', 'LimA', 'limit mixin + numeric base'])
+                if not frame(('subclass', 'LimA'), 'LimA'):
+                    return
+                insts['la'] = self.nodes.make_module(classes['LimA'], 'qzq1')
+                if not frame(('instantiate', 'la'), 'la'):
+                    return
+                Old = type(f'LimOld_{self.uid}', (NumBase,), {'lv_max': C.Parameter('soft limit', self.D.FloatRange(0, 360, unit='deg'), readonly=False, default=180.0),
+                                                                 '__module__': __name__})
+                classes['LimOld'] = Old
+                if not frame(('subclass', 'LimOld'), 'LimOld'):
+                    return
+                classes['LimB'] = type(f'LimB_{self.uid}', (LimMixin, Old), {'__module__': __name__})
+                log.append(['define', 'LimB', 'limit mixin + class with a plain parameter of the same name'])
+                r.count('limit_mixin_scenarios')
+                if not frame(('subclass', 'LimB'), 'LimB'):
+                    return
+                la2 = self.nodes.make_module(classes['LimA'], 'qzq2')
+                r.count('later_instance_checks')
+                if self.snap_inst(la2) != snaps['la']:
+                    r.violation('C09/later-instance-differs', 'an instance of the class using the limit mixin, created after another class combined the mixin with a plain '
+                                'parameter of the same name, differs from the earlier one', {'program': log})
+                    return
+            except Exception as e:
+                log.append(['limit-mixin-scenario-failed', f'{type(e).__name__}: {e}'[:120]])
+                r.count('limit_mixin_scenarios_refused')
         # controlled_by enum growth on one of two instances of the same class
         if rng.random() < 0.5:
             C = self.C
